@@ -59,8 +59,9 @@ SameDigest(a, c) == a.ok /\ a.len = c.len /\ a.md5 = c.md5 /\ (HasB(a) /\ HasB(c
 (*    position: from add_data under with_encryption -> F01a, from          *)
 (*    add_encrypted_data -> F01b; empty payload with inner mode N          *)
 (*    encrypted -> F01d), the container has exactly the chunks of the      *)
-(*    model, every chunk that is NOT broken decodes to exactly its segment *)
-(*    of the content, and an F01d chunk is 17 bytes long and undecodable.  *)
+(*    model, every chunk that is NOT broken decodes to exactly the next    *)
+(*    bytes of the content (a broken chunk stands for as many bytes as the *)
+(*    model says), and an F01d chunk is 17 bytes long and undecodable.     *)
 (*  dsize wrong     <- F01c: the chunk is encrypted ('E') and dsize is the *)
 (*    length of the encrypted payload (csize - 1 - 15);                    *)
 (*                  <- F01e: the model's chunk was taken from a parsed     *)
@@ -89,11 +90,15 @@ JudgeBuild(e, mb, mcontent, x) ==
                  /\ (Has(e, "bytes") /\ HasB(e.content) /\ t.wf /\ AllStored(e.bytes, t))
                        => StoredBody(e.bytes, t, 1) = e.content.b
         br == Broken(mb)
-        SegOk(p) == /\ e.parts[p].ok /\ e.parts[p].len = mb.chunks[p].len
+        \* segments as observed: a chunk that is not broken covers as much content as it decodes to (this
+        \* does not depend on HOW a call cut its payload into chunks), a broken one what the model says
+        SegLen == [p \in 1..n |-> IF p \in br \/ ~e.parts[p].ok THEN mb.chunks[p].len ELSE e.parts[p].len]
+        SegOk(p) == /\ e.parts[p].ok
                     /\ (HasB(e.parts[p]) /\ inline) =>
-                          e.parts[p].b = SubSeq(mcontent, mb.chunks[p].off + 1, mb.chunks[p].off + mb.chunks[p].len)
+                          e.parts[p].b = SubSeq(mcontent, SumTo(SegLen, p - 1) + 1, SumTo(SegLen, p))
         identDev == /\ br # {} /\ same /\ t.wf /\ t.n = n
                     /\ \A p \in br : Known(WhyBroken(mb, p))
+                    /\ SumTo(SegLen, n) = mb.clen
                     /\ \A p \in (1..n) \ br : SegOk(p)
                     /\ \A p \in TooShort(mb) : ~e.parts[p].ok /\ t.cs[p] = 17
         identFids == IF ident THEN {} ELSE {WhyBroken(mb, p) : p \in br}
@@ -105,7 +110,7 @@ JudgeBuild(e, mb, mcontent, x) ==
         dsbad  == IF tabled THEN {i \in 1..t.n : e.parts[i].ok /\ t.ds[i] # e.parts[i].len} ELSE {}
         dmbad  == IF tabled /\ t.entry = 40 THEN {i \in 1..t.n : e.parts[i].ok /\ t.dmd5[i] # e.parts[i].md5} ELSE {}
         DsWhy(i) == IF Known("F01c") /\ e.firsts[i] = 69 /\ t.ds[i] = t.cs[i] - 16 THEN "F01c"
-                    ELSE IF Known("F01e") /\ same /\ mb.chunks[i].kind = "parsed" /\ t.ds[i] = t.cs[i] - 1 THEN "F01e"
+                    ELSE IF Known("F01e") /\ t.n = n /\ mb.chunks[i].kind = "parsed" /\ t.ds[i] = t.cs[i] - 1 THEN "F01e"
                     ELSE IF ~ident /\ identDev /\ i \in br THEN "broken"
                     ELSE "bad"
         DmWhy(i) == IF Known("F01f") /\ e.firsts[i] = 69 /\ t.dmd5[i] = t.md5[i] THEN "F01f" ELSE "bad"
